@@ -86,6 +86,12 @@ def run(ctx):
                               kinds=['extremes'] if k % 2 == 0 else None,
                               n_bands=int(ctx.rng.integers(2, 7 if ctx.tier != 'quick' else 4)))
         sc['K'] = max(sc['K'], 2)
+        if k % 2 == 1:
+            # a lossless band next to lossy ones
+            sc['att'] = np.array(sc['att'], dtype=float)
+            sc['att'][int(ctx.rng.integers(0, sc['B']))] = 0.0
+            if not np.any(sc['att'] != 0):
+                sc['att'][-1] = 0.07
         if k % 2 == 0 and sc['tables'] is None:
             # a wall that is fully absorbing in the FIRST band only
             sc['absorption'][int(ctx.rng.integers(0, 6)), 0] = 1.0
